@@ -525,6 +525,21 @@ def run_top(case):
     return [code, dump_checked(z, rel)]
 
 
+def run_legacy(case):
+    """the older API: dns.zone.from_xfr(dns.query.xfr(...)) against the loopback server (AXFR)"""
+    global _server
+    _, rel, msgs = case[:3]
+    if _server is None:
+        _server = MiniServer()
+    _server.script = {"udp": [], "tcp": [[None, msgs]]}
+    try:
+        gen = dns.query.xfr("127.0.0.1", ORIGIN, port=_server.port, relativize=bool(rel), timeout=5, lifetime=5)
+        z = dns.zone.from_xfr(gen, relativize=bool(rel))
+    except Exception as e:  # noqa
+        return exc_code(e)
+    return dump_zone(z, rel)
+
+
 def run_make_query(case):
     _, zs, ser = case
     z = dns.versioned.Zone(ORIGIN)
@@ -580,6 +595,8 @@ def impl(case):
             return run_refresh(case)
         if op == 8:
             return run_top(case)
+        if op == 9:
+            return run_legacy(case)
     except Exception as e:  # noqa  (harness-level failure: build_zone, rendering ...)
         return Err(950, "harness:" + type(e).__name__ + ":" + str(e))
     raise ValueError("bad op")
@@ -1336,6 +1353,19 @@ def top_cases(ctx, rng, n):
         yield "top", [8, zk, rel, mode, zdump(z0), tu, tt, [exp, zdump(chain[-1])]]
 
 
+def legacy_cases(ctx, rng, n):
+    """valid AXFR responses through dns.query.xfr + dns.zone.from_xfr (oracle only)"""
+    for _ in range(n):
+        z = gen_zone(rng, rng.randrange(T32))
+        recs = axfr_stream(rng, z, shuffle=rng.random() < 0.6)
+        msgs = msgs_of(split(recs, rand_cuts(rng, len(recs))), AXFR, rng.choice([0, 1, 2]))
+        yield "legacy-xfr", [9, rng.randrange(2), msgs, zdump(z)]
+
+
+def in_model(kind, case):
+    return case[0] != 9
+
+
 def misc_cases(ctx, rng):
     edge = [0, 1, 2, 2 ** 31 - 1, 2 ** 31, 2 ** 31 + 1, 2 ** 32 - 2, 2 ** 32 - 1]
     for a in edge:
@@ -1376,6 +1406,7 @@ def cases(ctx):
     yield from feed_cases(ctx, rng, ctx.n(200, 2000))
     yield from refresh_cases(ctx, rng, ctx.n(200, 2500))
     yield from top_cases(ctx, rng, ctx.n(120, 800))
+    yield from legacy_cases(ctx, rng, ctx.n(60, 500))
 
 
 # ------------------------------------------------------------------ oracle
@@ -1389,7 +1420,7 @@ def oracle(ctx, kind, case, out):
 
     op = case[0]
     if isinstance(out, Err):
-        if op in (1, 2, 6, 8) or out.code >= 900:
+        if op in (1, 2, 6, 8, 9) or out.code >= 900:
             fail("unexpected exception " + out.text)
         return F
     if op == 4:
@@ -1437,6 +1468,10 @@ def oracle(ctx, kind, case, out):
             prev = target
         if len(out) != len(case[6]) and not F:
             fail("refresh sequence stopped early", sig="refresh-short")
+        return F
+    if op == 9:
+        if out != case[3]:
+            fail("dns.zone.from_xfr(dns.query.xfr(...)) of a valid AXFR is not the server's zone", sig="legacy-wrong-zone")
         return F
     if op == 8:
         code, dump = out
